@@ -104,8 +104,11 @@ func runAnalysisProp(prop string, r *Rng, n int, tier string) {
 				}
 			}
 			if engine == "postgresql" {
+				// one ALTER TABLE with several actions (a drop first), in two variants
 				gone := [][2]string{{"authors", "name"}, {"authors", "age"}, {"books", "title"}, {"books", "price"}}
 				emitAnalysis(prop, id+"-m", engine, schema+"ALTER TABLE authors DROP COLUMN name, DROP COLUMN age;\nALTER TABLE books DROP COLUMN title, DROP COLUMN price;\n", q, "", false, gone)
+				gone2 := [][2]string{{"authors", "bio"}, {"authors", "age"}, {"books", "author_id"}, {"books", "order"}}
+				emitAnalysis(prop, id+"-n", engine, schema+"ALTER TABLE authors DROP COLUMN bio, DROP COLUMN age;\nALTER TABLE books DROP COLUMN author_id, DROP COLUMN \"order\";\n", q, "", false, gone2)
 			}
 		}
 	})
